@@ -1,3 +1,4 @@
+\* plans as a relation, no migrations: 1,089 distinct / 577,670 generated, ~2.5 min with 4 workers
 SPECIFICATION Spec
 CONSTANTS
   Hs = {2, 3, 4, 5, 6}
